@@ -46,7 +46,6 @@ NON_CCD = {('plane', 'sphere'), ('plane', 'capsule'), ('plane', 'cylinder'), ('p
            ('sphere', 'sphere'), ('sphere', 'capsule'), ('sphere', 'cylinder'), ('sphere', 'box'),
            ('capsule', 'capsule'), ('capsule', 'box'), ('box', 'box')}     # pairs with a closed-form collider
 SMOOTH = ('sphere', 'capsule', 'ellipsoid')
-STRICT = bool(os.environ.get('VERIF_STRICT'))   # assert the documented findings F1..F5 too (fires on the unchanged tree)
 DEEP = 0.5           # penetration deeper than this fraction of the smaller size: only invariants (depth not unique)
 
 
@@ -194,9 +193,33 @@ def main(ck):
             break
         if not ok:
           raise Violation(soft[0][0], bucket=soft[0][1])
-        stats['translation_variant'] += 1
-        ck.label('gjk-translation-variant(F2, not asserted)')
+        ck.label('gjk-translation-variant(known finding)')
+        finding('gjk-translation-variant', soft[0][0], info)
     ck.label('pair:%s-%s' % tuple(sorted((ta, tb), key=ORDER.get)))
+
+  WHAT = {
+      'gjk-touching-band': 'native GJK/EPA with |true distance| <~ 10*ccd_tolerance: mj_geomDistance returns a penetration of up '
+                           'to ~100x ccd_tolerance (also for separated geoms), fromto may be all zero or outside the geoms, '
+                           'and the contact normal is arbitrary (47..180 deg off observed)',
+      'gjk-translation-variant': 'native GJK stagnates with an error far above ccd_tolerance (1.5e-5 at tolerance 1e-10, '
+                                 'sphere-ellipsoid) depending on the last bits of the coordinates: a rigid translation of both '
+                                 'geoms changes mj_geomDistance / contact dist by >> tolerance',
+      'makeframe-parallel-tangent': 'mjc_PlaneCapsule passes the capsule axis as contact tangent; when the axis is exactly '
+                                    'parallel to the plane normal mju_makeFrame normalises a zero vector to (1,0,0) and the '
+                                    'contact frame is not orthonormal (|F F^T - I| = 0.38)',
+      'capsule-capsule-parallel': 'mjraw_CapsuleCapsule with parallel axes: (a) the parallel branch pairs the end points of '
+                                  'capsule 1 with their clipped projections on capsule 2 and returns once two contacts exist: '
+                                  'depth too small (44 % observed) when capsule 1 overhangs capsule 2; (b) the parallel test '
+                                  '|det| < mjMINVAL is absolute: for half-lengths >~ 1 rounding noise selects the general '
+                                  'branch with meaningless parameters (missing contacts, ~100 % depth error)',
+      'capsulebox-distmax': 'mjraw_CapsuleBox initialises bestdistmax with a length (margin + 2*sizes) and compares it with '
+                            'squared distances: for geoms/margins larger than ~1 contacts are missed and mj_geomDistance '
+                            'returns distmax (same root cause as C28:capsulebox-distmax)'}
+
+  def finding(fp, msg, info):
+    stats['finding:' + fp] = stats.get('finding:' + fp, 0) + 1
+    ck.violation('%s -- %s' % (WHAT[fp], msg), {k: v for k, v in info.items()}, bucket='known:' + fp,
+                 fingerprint='C13:' + fp)
 
   def check_pose(ck, lib, m, d, S, M, G, tol_ccd, info, calib, stats, soft, record):
     ncon = int(d.ncon)
@@ -255,9 +278,9 @@ def main(ck):
         # tangent parallel to the normal and returns a non-orthogonal frame unless the normal happens to be
         # orthogonal to (1,0,0).  Counted, not asserted.
         if err > K_FRAME:
-          labels_pre.append('frame-not-orthonormal(F3 known, capsule perpendicular to plane)')
+          labels_pre.append('frame-not-orthonormal(known finding, capsule perpendicular to plane)')
           if record:
-            stats['frame_f3'] += 1
+            finding('makeframe-parallel-tangent', '|F F^T - I| = %.3g' % err + desc(), info)
           continue
       if not err <= K_FRAME + K_COND * 2.2e-16 * cond:   # tangent given by a capsule axis nearly parallel to n
         hard('contact frame not orthonormal: |F F^T - I| = %.3g' % err, 'frame')
@@ -283,13 +306,22 @@ def main(ck):
       labels.append('deep(invariants only)')
 
     # ---- existence (closed-form pairs): contact iff true distance <= margin+gap, don't-care band tdist
-    par_caps = pair == ('capsule', 'capsule') and not STRICT and \
-        np.linalg.norm(np.cross(S[0].mat[:, 2], S[1].mat[:, 2])) < 1e-6
+    par_caps = pair == ('capsule', 'capsule') and np.linalg.norm(np.cross(S[0].mat[:, 2], S[1].mat[:, 2])) < 1e-6
     if par_caps and dtrue is not None and dtrue < M + G - tdist and ncon == 0:
-      labels.append('parallel-capsules-missing-contact(F5 known)')
+      labels.append('parallel-capsules-missing-contact(known finding)')
       if record:
-        stats['parallel_capsules_f5_missing'] += 1
-    if dtrue is not None and not par_caps:
+        finding('capsule-capsule-parallel', 'no contact, true distance %.17g < margin+gap %.17g' % (dtrue, M + G) + desc(),
+                info)
+    # capsule-box with sizes/margins > ~1: known defect (length compared with squared lengths)
+    cb_big = lambda marg: pair == ('capsule', 'box') and marg + 2 * (a.size[0] + a.size[1] + float(np.sum(b.size[:3]))) > 1.0
+    if cb_big(M + G) and dtrue is not None and ((dtrue < M + G - tdist and ncon == 0)):
+      labels.append('capsule-box-missing-contact(known finding)')
+      if record:
+        finding('capsulebox-distmax', 'no contact, true distance %.17g < margin+gap %.17g' % (dtrue, M + G) + desc(), info)
+      dtrue_exist = None
+    else:
+      dtrue_exist = dtrue
+    if dtrue_exist is not None and not par_caps:
       if dtrue < M + G - tdist and ncon == 0:
         (softfail if is_ccd else hard)('no contact although true distance %.17g < margin+gap %.17g' % (dtrue, M + G),
                                        'missing-contact')
@@ -304,19 +336,16 @@ def main(ck):
       n = np.array(c['frame'][:3])
       touching = is_ccd and abs(dmin - M) <= TOUCH_BAND * tol_ccd     # EPA started from a (near) degenerate simplex
       # ---- distance value
-      f5 = pair == ('capsule', 'capsule') and not STRICT and \
-          np.linalg.norm(np.cross(S[0].mat[:, 2], S[1].mat[:, 2])) < 1e-6
+      f5 = pair == ('capsule', 'capsule') and np.linalg.norm(np.cross(S[0].mat[:, 2], S[1].mat[:, 2])) < 1e-6
       if f5:
         # FINDING F5 (see report): exactly parallel capsules. (a) the parallel branch pairs the END POINTS of geom1's
         # axis with their clipped projections on geom2 and returns as soon as two contacts exist, so when capsule 1
         # overhangs capsule 2 the reported depth is too small (44 % observed); (b) the parallel test is
         # |det| < 1e-15 (absolute): for half-lengths >~ 1 rounding noise in det selects the general branch with
         # meaningless parameters (missing contacts, depth errors ~100 %). Only the sound one-sided relation is kept.
-        labels.append('parallel-capsules(F5 known: only dist >= true asserted)')
-        if record:
-          stats['parallel_capsules_f5'] += 1
-          if abs(dmin - dtrue) > tdist:
-            stats['parallel_capsules_f5_wrong'] += 1
+        labels.append('parallel-capsules(only dist >= true asserted)')
+        if record and abs(dmin - dtrue) > tdist:
+          finding('capsule-capsule-parallel', 'min contact dist %.17g, true %.17g' % (dmin, dtrue) + desc(), info)
         if dmin < dtrue - tdist:
           hard('parallel capsules: contact dist %.17g deeper than the true signed distance %.17g' % (dmin, dtrue),
                'dist:capsule-capsule')
@@ -357,10 +386,11 @@ def main(ck):
               w, dmin, tdist), 'normal:%s-%s' % pair)
       elif not deep and touching:
         # FINDING F1: inside the touching band the EPA normal is arbitrary (observed 47 deg and ~180 deg off)
-        labels.append('epa-touching-band(normal not asserted, F1)')
-        if record:
-          stats['epa_touching_band'] += 1
-      elif not deep:
+        labels.append('epa-touching-band(normal not asserted)')
+        if record and w + dmin > 0.02 * sc + tdist:
+          finding('gjk-touching-band', 'contact dist %.3g with normal along which the overlap is %.6g' % (dmin, w) + desc(),
+                  info)
+      elif not deep and is_ccd:
         # GJK/EPA pair. w(n) = h1(n)+h2(-n) >= -(true signed distance) for every n, so the reported depth can never
         # exceed the width along its own normal; EPA stops on the best upper bound seen so far, hence its final face
         # normal is only approximately optimal (observed: 2 degrees at tolerance 1e-6): the direction is asserted
@@ -436,13 +466,21 @@ def main(ck):
           est = -ub
         band[0] = abs(est) <= TOUCH_BAND * tol_ccd + tprim
         if band[0]:
-          if record:
-            stats['gd_touching_band'] += 1
-          labels.append('geomDistance-touching-band(F1, not asserted)')
+          labels.append('geomDistance-touching-band')
       return band[0]
 
     def gd_fail(msg, bucket):
-      if touching_band() or par_caps:
+      if par_caps:
+        if record:
+          finding('capsule-capsule-parallel', msg + desc(), info)
+        return
+      if cb_big(distmax):
+        if record:
+          finding('capsulebox-distmax', msg + desc(), info)
+        return
+      if touching_band():
+        if record:
+          finding('gjk-touching-band', msg + desc(), info)
         return
       (softfail if gd_ccd else hard)(msg, bucket)
     err = abs(d12 - d21)
